@@ -374,20 +374,26 @@ def membership_predicates(ctx, k, K):
              'SE3': [('base.ishom', b.ishom, {'check': True})],
              'SO2': [('base.isR', b.isR, {}), ('base.isrot2', b.isrot2, {'check': True})],
              'SE2': [('base.ishom2', b.ishom2, {'check': True})]}
+    import spatialmath as sm
+    for kind in table:
+        C_ = getattr(sm, kind)
+        # the class predicates (value checking is their documented default), with the flag omitted, by keyword and positionally
+        table[kind] += [(kind + '.isvalid', C_.isvalid, {}), (kind + '.isvalid', C_.isvalid, {'check': True}), (kind + '.isvalid', (lambda C_: (lambda x: C_.isvalid(x, True)))(C_), {})]
     i = 0
     for kind, preds in table.items():
         for gn, M in members(kind, tier, seed):
             i += 1
             if i % K != k:
                 continue
-            for site, f, kw in preds:
-                pred(ctx, 'C07/pred/%s/%s/%s/valid' % (site, kind, gn), site, dict(kind=kind, g=gn.split('|')[0], defect='none'), f, M.copy(), True, **kw)
+            for pi_, (site, f, kw) in enumerate(preds):
+                site = site if pi_ < 10 else site
+                pred(ctx, 'C07/pred/%s#%d/%s/%s/valid' % (site, pi_, kind, gn), site, dict(kind=kind, g=gn.split('|')[0], defect='none'), f, M.copy(), True, **kw)
                 for dn, kk, B in defects(M, kind, tier):
                     if distance(B, kind) > BAND:
                         P = dict(kind=kind, g=gn.split('|')[0], defect=dn)
                         if kk is not None:
                             P['k'] = kk
-                        pred(ctx, 'C07/pred/%s/%s/%s/%s/k=%s' % (site, kind, gn, dn, kk), site, P, f, B, False, **kw)
+                        pred(ctx, 'C07/pred/%s#%d/%s/%s/%s/k=%s' % (site, pi_, kind, gn, dn, kk), site, P, f, B, False, **kw)
 
 
 def constructor_outputs(ctx):
